@@ -381,6 +381,8 @@ FIXED_TABLES = [
     ("tune_up_push", "tu:1.*($0)^2.*($9)>1.0(2.0($0))"),
     ("tune_cycle", "td:0.0>1.0;td:1.0>0.0"),  # rewrite() never returns
     ("tune_up_restart", "tu:0.0^1.0($9)>2.0;td:2.0>2.1"),
+    ("tune_up_restart_down", "tu:0.*^1.*($9)>2.0(0.1);td:2.0($0)>2.1($0)"),  # the output of an up rule is rewritten from the top again
+    ("tune_up_restart_up", "tu:1.0($0)^2.0($9)>0.0($0);tu:0.0^0.0($9)>1.1"),
     ("tune_children_then_parent", "td:0.0>0.1;tu:0.1^1.0($9)>2.0(0.1)"),
     ("lower_chain", "l:0.0($0)>1.0($0);l:1.0($0)>2.0($0)"),
     ("lower_output_children", "l:0.0($0)>1.0(0.1($0));l:0.1($0)>2.0($0)"),
@@ -535,9 +537,11 @@ def t2_cases(ctx):
     cases = []
     shared = shared_trees(2 if ctx.quick else 3)
     for ti, tab in enumerate(tables):
-        trees = list(small) + shared
+        trees = list(small)
         if ctx.quick:
-            trees += [random_tree(rng, rng.choice([4, 4, 5, 6, 6]), lits=(0, 1) if ti % 2 else (0,)) for _ in range(70)]
+            # shared sub-expressions matter where `_simplify_up` reads the dependents / the cache is hit
+            trees += shared if ("u:" in tab and ti < len(FIXED_TABLES)) else shared[::6]
+            trees += [random_tree(rng, rng.choice([4, 4, 5, 6, 6]), lits=(0, 1) if ti % 2 else (0,)) for _ in range(45)]
         else:
             trees = list(mid) + shared + [random_tree(rng, 6) for _ in range(1500)]
             if ti < len(FIXED_TABLES):
@@ -597,8 +601,17 @@ def fam_collect(ctx):
 # =========================================================================== parallel map
 
 
+_PROC_CAP = {"quick": 4, "thorough": 16}
+_TIER = "quick"
+
+
 def _pmap(fn, items, procs=None, chunksize=8):
-    procs = min(procs or int(os.environ.get("VERIF_PROCS", "16")), os.cpu_count() or 1, max(1, len(items)))
+    """fork-based parallel map.  Forking this process is expensive (copy-on-write of the interpreter heap) and
+    oversubscription makes it worse, so the number of workers is capped per tier and by the idle cores."""
+    ncpu = os.cpu_count() or 1
+    if procs is None:
+        procs = int(os.environ.get("VERIF_PROCS", "0")) or min(_PROC_CAP[_TIER], max(2, ncpu - int(os.getloadavg()[0])))
+    procs = min(procs, ncpu, max(1, len(items) // max(chunksize, 1)))
     if procs <= 1 or len(items) < 4:
         return [fn(x) for x in items]
     with mp.get_context("fork").Pool(procs) as pool:
@@ -1168,7 +1181,8 @@ def _trace_chunk(names):
 def traced_firings(ctx, names):
     """T3: run optimize() over the programs with every rule method of every live class wrapped."""
     names = list(dict.fromkeys(names))
-    chunks = [names[i::16] for i in range(16) if names[i::16]]
+    k = 4 if ctx.quick else 16
+    chunks = [names[i::k] for i in range(k) if names[i::k]]
     counts, fired = collections.Counter(), collections.Counter()
     for c, f in _pmap(_trace_chunk, chunks, chunksize=1):
         counts.update(c)
@@ -1237,4 +1251,6 @@ def _exec_unoptimized(expr):
 
 
 def families(ctx):
+    global _TIER
+    _TIER = ctx.tier
     return [fam_drivers, fam_collect, fam_firings]
